@@ -52,7 +52,7 @@ ASSUMPTIONS = [
     "DER encoding/decoding of the container structures by encoding/asn1 is the identity on the decoded structures",
     "hash, HMAC-SHA1, signature verification are functions (no collision / forgery statement is made: theorems conclude equalities of MACs / digests)",
 ]
-RULE = ("(audit round 2: hand-built RSA signers with and without signed attributes; VER cases carry the outcome the property states; SEL decided by an independent rule on the recipient list; a DES-CBC 'diff' after a single-byte corruption is accepted only inside IV / ciphertext / RSA-wrapped key; corruption offsets and replacement values rotate with the seed) enveloped: contents of 0,1,7,8,9,15,16,17,31,32,33,100,1000,4096 bytes and 65536 (thorough: more sizes up to 64 KiB), tails that look like "
+RULE = ("(round 4: SM2 keys with 31/30/29 significant scalar bytes and a public coordinate with a leading zero in the PKCS#12 round trips, compared by scalar and point; class PF: 29 structural forgeries of a PKCS#12 container without the password - macData removed, duplicated, moved or altered, safes reordered / dropped / duplicated, the encrypted certificate safe replaced by a plain one - must be refused or decode to exactly the owner's key and certificate) (audit round 2: hand-built RSA signers with and without signed attributes; VER cases carry the outcome the property states; SEL decided by an independent rule on the recipient list; a DES-CBC 'diff' after a single-byte corruption is accepted only inside IV / ciphertext / RSA-wrapped key; corruption offsets and replacement values rotate with the seed) enveloped: contents of 0,1,7,8,9,15,16,17,31,32,33,100,1000,4096 bytes and 65536 (thorough: more sizes up to 64 KiB), tails that look like "
         "padding, DES-CBC and AES-128-GCM, SM2 (both orderings) and RSA recipients, 1-3 recipients, stranger certificate, recipient certificate "
         "with another private key; signed: SM2 signers with SM3 (both OIDs) and SHA-256, with/without signed attributes, attached/detached, "
         "library-made RSA signed data; content / signing-time attribute / signature / certificate altered; PKCS#12: passwords empty, ASCII, "
